@@ -7,7 +7,8 @@ Topology Utilities
 import copy
 import re
 
-from vivarium.library.dict_utils import deep_merge, deep_merge_multi_update
+from vivarium.library.dict_utils import (
+    deep_copy_internal, deep_merge, deep_merge_multi_update)
 
 
 def get_in(d, path, default=None):
@@ -230,11 +231,14 @@ def inverse_topology(outer, update, topology, inverse=None, multi_updates=True):
                             inner,
                             lambda current: deep_merge_multi_update(current, value))
                     # Do not allow multiupdates when forming initial state
+                    # (a copy of ``value`` is merged: other ports' values
+                    # are merged into the result, not into ``value``)
                     else:
                         inverse = update_in(
                             inverse,
                             inner,
-                            lambda current: deep_merge(current, value))
+                            lambda current: deep_merge(
+                                current, deep_copy_internal(value)))
                 else:
                     inverse = _assoc_leaf_update(
                         inverse, inner, value, multi_updates)
